@@ -28,7 +28,7 @@ RULE = ("random system bounds/exclusion zone x 1-6 proposals (priorities with ti
         "bound/inside the zone/outside the system bounds, bounds None/compatible/incompatible/inside the zone), "
         "arrival histories = permutations + stale replacements + None/bounds-only recomputations + expiry patterns. "
         "distinct = canonical case JSON; non-trivial = >=2 proposals and >=2 distinct histories executed")
-REQUIRED_BUCKETS = ["pool-handle-tier(proposals as BatteryPool.propose_* builds them)", "two-handles-with-the-same-name-and-priority",
+REQUIRED_BUCKETS = ["pool-handle-tier(proposals as BatteryPool.propose_* builds them)", "pool-handle-tier:ev-pool-handles", "pool-handle-tier:pv-pool-handles", "two-handles-with-the-same-name-and-priority",
                     "conflicting-set", "conflict-free-set", "zone-straddling-bounds", "all-None-proposals",
                     "ties", "expiry-drops-some", "stale-replaced", "zone-present", "target-on-zone-edge",
                     "two-groups-share-actors", "max-age:60s", "max-age:other", "tiny-nonzero-preference",
@@ -151,7 +151,23 @@ def _gen_handles(rng: Any) -> dict[str, Any]:
         else:
             w = rng.choice([None, 0.0, round(rng.uniform(0.0, 1.2) * span, 1)])
         steps.append([h, meth, w, lo, hi, rng.choice([0.0, 0.0, 1.0, 20.0, 30.5, 45.0, 61.0])])
-    return {"kind": "pool-handles", "handles": handles, "sys": sys, "excl": excl, "steps": steps,
+    pool = rng.choice(["battery", "battery", "battery", "ev", "pv"])
+    if pool != "battery":
+        # the handles of the other pools (EVChargerPool / PVPool.propose_power: charge only / production only)
+        sgn = 1.0 if pool == "ev" else -1.0
+        for st in steps:
+            st[1] = "power"
+            if st[2] is not None:
+                st[2] = sgn * abs(st[2])
+                if st[3] is not None:
+                    st[2] = min(max(st[2], st[3]), st[4])
+                    if st[2] * sgn < 0:
+                        st[2] = 0.0
+            if rng.random() < 0.25:
+                st[2] = None  # the actor withdraws its preference (bounds, if any, stay)
+                if rng.random() < 0.5:
+                    st[3] = st[4] = None  # ... or its whole proposal
+    return {"kind": "pool-handles", "pool": pool, "handles": handles, "sys": sys, "excl": excl, "steps": steps,
             "final_wait": rng.choice([0.0, 0.0, 30.0, 61.0, 100.0])}
 
 
@@ -182,6 +198,28 @@ async def _drive_handles(case: dict[str, Any], out: dict[str, Any]) -> None:
         power_manager_bounds_subscription_sender=Broadcast(name="pb").new_sender(),
         power_distribution_results_fetcher=MagicMock(), min_update_interval=timedelta(seconds=0.2), batteries_id={11, 12})
     pools = [BatteryPool(pool_ref_store=store, name=n, priority=p, set_operating_point=False) for n, p in case["handles"]]
+    ids = frozenset({11, 12})
+    other_store: Any = None
+    if case.get("pool") in ("ev", "pv"):
+        from frequenz.client.microgrid import Component, ComponentCategory, Connection, InverterType
+
+        if case["pool"] == "ev":
+            from frequenz.sdk.timeseries.ev_charger_pool import EVChargerPool as Pool
+            from frequenz.sdk.timeseries.ev_charger_pool._ev_charger_pool_reference_store import \
+                EVChargerPoolReferenceStore as Store
+            ids = frozenset({21, 22})
+            extra = [Component(i, ComponentCategory.EV_CHARGER) for i in sorted(ids)]
+        else:
+            from frequenz.sdk.timeseries.pv_pool import PVPool as Pool
+            from frequenz.sdk.timeseries.pv_pool._pv_pool_reference_store import PVPoolReferenceStore as Store
+            ids = frozenset({31, 32})
+            extra = [Component(i, ComponentCategory.INVERTER, InverterType.SOLAR) for i in sorted(ids)]
+        fakes.install_connection_manager(comps + extra, conns + [Connection(2, i) for i in sorted(ids)])
+        other_store = Store(channel_registry=ChannelRegistry(name="vf2"), resampler_subscription_sender=Broadcast(name="rs2").new_sender(),
+                            status_receiver=Broadcast(name="st2").new_receiver(limit=1), power_manager_requests_sender=pm_ch.new_sender(),
+                            power_manager_bounds_subs_sender=Broadcast(name="pb2").new_sender(),
+                            power_distribution_results_fetcher=MagicMock(), component_ids=set(ids))
+        pools = [Pool(pool_ref_store=other_store, name=n, priority=p, set_operating_point=False) for n, p in case["handles"]]
     sb = pm.mk_sysbounds(case["sys"], case["excl"])
     alg = pm.new_matryoshka(60.0)
     log = out["log"]
@@ -206,16 +244,20 @@ async def _drive_handles(case: dict[str, Any], out: dict[str, Any]) -> None:
         await asyncio.sleep(case["final_wait"])
     alg.drop_old_proposals(loop.time())
     out["t_end"] = loop.time()
-    out["ids"] = frozenset({11, 12})
+    out["ids"] = ids
     t = alg.calculate_target_power(out["ids"], None, sb, True) if out["ids"] in alg._component_buckets else None  # noqa: SLF001
     out["target"] = None if t is None else t.as_watts()
     await store.stop()
+    if other_store is not None:
+        await other_store.stop()
 
 
 def _check_handles(case: dict[str, Any], rec: Any) -> None:
     from ..vloop import LoopMonitor, run_virtual
 
     rec.bucket("pool-handle-tier(proposals as BatteryPool.propose_* builds them)")
+    if case.get("pool") in ("ev", "pv"):
+        rec.bucket("pool-handle-tier:" + case["pool"] + "-pool-handles")
     out: dict[str, Any] = {"log": []}
     run_virtual(lambda: _drive_handles(case, out), monitor=LoopMonitor())
     handles = case["handles"]
